@@ -137,6 +137,13 @@ func scenarioC05(r *Run) {
 // strip55799 removes every tag-55799 wrapper (also inside protected headers)
 // and reports how many were removed.
 func strip55799(b []byte) ([]byte, int) {
+	// a stand-alone protected bucket: the map sits inside the byte string
+	if it, err := refcbor.ParseOne(b); err == nil && it.Major == refcbor.MBstr && !it.Indef && len(it.Data) > 0 {
+		if inner, n := strip55799(it.Data); n > 0 {
+			return refcbor.Encode(refcbor.Bstr(inner)), n
+		}
+		return b, 0
+	}
 	m, err := OpenTree(b)
 	if err != nil {
 		return b, 0
